@@ -291,9 +291,12 @@ def _fstring_patterns(quote: str, raw: bool) -> str:
     return choice(LBrace=text + r"\{(?!\{)", End=text + quote, Stray=text + r"\}(?!\})")
 
 
-def _fstring_spec_patterns(quote: str) -> str:
+def _fstring_spec_patterns(quote: str, raw: bool = False) -> str:
     q = quote[0]
-    body = rf"[^{q}\\{{}}]|\\[\s\S]"
+    named = "" if raw else r"|N\{"
+    body = rf"[^{q}\\{{}}]|\\(?![{{}}]{named})[\s\S]|\\(?=[{{}}])"
+    if not raw:
+        body += r"|\\N\{[^{}]*\}"
     if len(quote) == 3:
         body += rf"|{q}(?!{q}{q})"
     text = f"(?:{body})*"
@@ -392,6 +395,12 @@ class TokenizerState:
                 return prog.quote
         return '"'
 
+    def fstring_raw(self) -> bool:
+        for prog in reversed(self.end_progs):
+            if prog.quote:
+                return prog.raw
+        return False
+
     def in_multi_line_string(self) -> bool:
         return bool(self.end_progs) and (len(self.end_progs[-1].quote) == 3)
 
@@ -422,6 +431,7 @@ class EndProg:
     contline: str = ""  # str
     start: tuple[int, int] = (0, 0)
     quote: str = ""
+    raw: bool = False  # an f-string with an r prefix
 
     def join(self, state: TokenizerState, end: int) -> None:
         self.text += state.line[state.pos : end]
@@ -522,8 +532,9 @@ def next_psuedo_matches(state: TokenizerState) -> TokenInfo | None:
         quote = match.group("Quote") or '"'
         if "f" in token.lower():
             token_type = Token.FSTRING_START
-            pattern = _fstring_patterns(quote, "r" in token.lower())
-            state.add_prog(end, end, pattern=pattern, quote=quote, mode=ModeMiddle(state.parenlev))
+            raw = "r" in token.lower()
+            pattern = _fstring_patterns(quote, raw)
+            state.add_prog(end, end, pattern=pattern, quote=quote, raw=raw, mode=ModeMiddle(state.parenlev))
         else:
             pattern = endpats[quote]
             state.add_prog(start, end, pattern=pattern, quote=quote)
@@ -546,13 +557,17 @@ def next_psuedo_matches(state: TokenizerState) -> TokenInfo | None:
             if state.in_braces() and state.at_parenlev():
                 state.pop_mode((state.lnum, end))
             state.parenlev -= 1
-        elif token == ":" and state.in_braces() and state.at_parenlev():
+        elif token[0] == ":" and token in (":", ":=") and state.in_braces() and state.at_parenlev():
+            # at the level of the field itself a colon starts the format spec, also the one of ':=' ('{x:=^10}')
+            token, end = ":", start + 1
+            epos, state.pos = (state.lnum, end), end
             state.add_prog(
                 start + 1,
                 end,
                 mode=ModeInColon(state.parenlev),
-                pattern=_fstring_spec_patterns(state.fstring_quote()),
+                pattern=_fstring_spec_patterns(state.fstring_quote(), state.fstring_raw()),
                 quote=state.fstring_quote(),
+                raw=state.fstring_raw(),
             )
         token_type = Token.OP
     elif match.lastgroup == "End":  # // continuation
